@@ -1021,3 +1021,67 @@ theorem C06_overwrite_iff (g : SG) (prevSub curSub : List Nat) (fw : List Nat) (
       | [_], h' => simp at h'
       | _ :: _ :: _, _ => rfl
     simp [this]
+
+
+/-- a forward node with at most one predecessor receives either that predecessor or nothing: permuted (`order`) and
+    overwritten (`overwrite`) operands are phenomena of fan-in nodes only -/
+theorem C06_single_parent_delivered (g : SG) (prevSub curSub fw : List Nat) (c : Nat)
+    (h1 : (g.parents c).length ≤ 1) (hsub : ∀ p ∈ fw, p ∈ curSub) :
+    delivered g prevSub curSub fw c = some (g.parents c) ∨ delivered g prevSub curSub fw c = some [] := by
+  match hp : g.parents c, h1 with
+  | [], _ => left; simp [delivered, hp]
+  | [p], _ =>
+    by_cases hfw : p ∈ fw
+    · left
+      have hc := hsub p hfw
+      simp [delivered, hp, hfw, hc]
+    · by_cases hext : p ∈ prevSub ∧ p ∉ curSub
+      · left; simp [delivered, hp, hfw, hext.1, hext.2]
+      · right
+        have : (prevSub.contains p && !curSub.contains p) = false := by
+          by_cases hpp : p ∈ prevSub
+          · have : p ∈ curSub := by
+              by_contra hn; exact hext ⟨hpp, hn⟩
+            simp [hpp, this]
+          · simp [hpp]
+        have this' : (decide (p ∈ prevSub) && !decide (p ∈ curSub)) = false := by simpa using this
+        simp [delivered, hp, hfw, this']
+  | _ :: _ :: _, h => simp at h
+
+theorem C06_single_parent_faults (g : SG) (prevSub curSub fw : List Nat) (c : Nat)
+    (h1 : (g.parents c).length ≤ 1) (hsub : ∀ p ∈ fw, p ∈ curSub) :
+    RouteFault.order c ∉ stageFaults g prevSub curSub fw ∧ RouteFault.overwrite c ∉ stageFaults g prevSub curSub fw := by
+  have hd := C06_single_parent_delivered g prevSub curSub fw c h1 hsub
+  constructor
+  · intro hmem
+    simp only [stageFaults, List.mem_filterMap] at hmem
+    obtain ⟨d, _, hval⟩ := hmem
+    cases hdel : delivered g prevSub curSub fw d with
+    | none => simp [hdel] at hval
+    | some l =>
+      simp only [hdel] at hval
+      split at hval
+      · simp at hval
+      · rename_i hne
+        split at hval
+        · simp at hval
+        · rename_i hlen
+          simp only [Option.some.injEq, RouteFault.order.injEq] at hval
+          subst hval
+          rcases hd with h | h
+          · rw [hdel] at h; exact hne (Option.some.inj h)
+          · rw [hdel] at h
+            have hl : l = [] := Option.some.inj h
+            subst hl
+            -- [] is not shorter than the operand list only if that list is empty: then they are equal
+            have : g.parents d = [] := by
+              cases hp : g.parents d with
+              | nil => rfl
+              | cons a as => simp [hp] at hlen
+            exact hne this.symm
+  · intro hmem
+    rw [C06_overwrite_iff] at hmem
+    have hlen := hmem.2
+    have hle : ((g.parents c).filter (fun p => prevSub.contains p && !curSub.contains p)).length ≤ (g.parents c).length :=
+      List.length_filter_le _ _
+    omega
